@@ -33,6 +33,7 @@ type C20Case struct {
 	Topics    bool
 	Window    bool
 	UseWriter bool // produce with the Go writer instead of the reference encoder
+	SizeMode  int  // chunk payload sizes: 0 uniform, 1 growing through the file, 2 shrinking, 3 irregular
 }
 
 func genC20(t *rapid.T) C20Case {
@@ -42,7 +43,7 @@ func genC20(t *rapid.T) C20Case {
 	}
 	c := C20Case{NChunks: rapid.IntRange(10, maxChunks).Draw(t, "n-chunks"), Depth: rapid.IntRange(1, 8).Draw(t, "depth"), PerChunk: rapid.IntRange(2, 6).Draw(t, "per-chunk"),
 		Payload: rapid.SampledFrom([]int{0, 8, 100, 2000}).Draw(t, "payload"), Seed: rapid.Uint64().Draw(t, "seed"), Topics: rapid.Bool().Draw(t, "topics"), Window: rapid.Bool().Draw(t, "window"),
-		UseWriter: rapid.IntRange(0, 3).Draw(t, "use-go-writer") == 0}
+		UseWriter: rapid.IntRange(0, 3).Draw(t, "use-go-writer") == 0, SizeMode: rapid.IntRange(0, 3).Draw(t, "size-mode")}
 	n := rapid.IntRange(1, 3).Draw(t, "n-comp")
 	for i := 0; i < n; i++ {
 		c.Comp = append(c.Comp, rapid.SampledFrom([]string{"", "zstd", "lz4"}).Draw(t, "comp"))
@@ -67,16 +68,25 @@ func buildC20(c *C20Case) ([]byte, *wl.Workload, error) {
 			case m > 0:
 				t = lo + (c.Seed>>uint(m))%(hi-lo+1)
 			}
-			w.Ops = append(w.Ops, wl.Op{M: &wl.Message{ChannelID: uint16((seq + uint32(c.Seed)) % 2), Sequence: seq, LogTime: t, PublishTime: t, Data: wl.Fill(c.Payload, c.Seed+uint64(seq))}})
+			size := c.Payload
+			switch c.SizeMode {
+			case 1:
+				size = c.Payload + 24*i
+			case 2:
+				size = c.Payload + 24*(c.NChunks-i)
+			case 3:
+				size = c.Payload + int((c.Seed>>uint(i%40))%97)*8
+			}
+			w.Ops = append(w.Ops, wl.Op{M: &wl.Message{ChannelID: uint16((seq + uint32(c.Seed)) % 2), Sequence: seq, LogTime: t, PublishTime: t, Data: wl.Fill(size, c.Seed+uint64(seq))}})
 			seq++
 		}
 		cuts = append(cuts, len(w.Ops)-1)
 	}
 	if c.UseWriter {
 		// the Go writer flushes when the chunk exceeds ChunkSize: give the last message of each chunk an oversize payload
-		size := int64(c.PerChunk*(31+c.Payload) + 200)
+		size := int64(c.PerChunk*(31+c.Payload+24*c.NChunks+97*8) + 200)
 		for _, cut := range cuts {
-			w.Ops[cut].M.Data = wl.Fill(int(size)+50, c.Seed)
+			w.Ops[cut].M.Data = wl.Fill(int(size)+50+len(w.Ops[cut].M.Data), c.Seed)
 		}
 		comp := c.Comp[0]
 		file, _, err := mc.WriteBytes(w, wl.Config{Chunked: true, ChunkSize: size, Compression: comp, IncludeCRC: true})
@@ -234,7 +244,7 @@ func checkC20(c C20Case, st *stats.Collector) error {
 		evals++
 	}
 	nontrivial := depth >= 2 && nChunks >= 20
-	classes := []string{fmt.Sprintf("depth=%d", depth)}
+	classes := []string{fmt.Sprintf("depth=%d", depth), fmt.Sprintf("chunk-sizes=%s", []string{"uniform", "growing", "shrinking", "irregular"}[c.SizeMode])}
 	switch {
 	case nChunks >= 500:
 		classes = append(classes, "chunks>=500")
